@@ -43,7 +43,7 @@ def one(sp):
         msgs = []
         ok = True
         for p, rules in d['expect'].items():
-            r = subprocess.run([V + '/bin/vlcheck', '-property', p, '-repo', wt, '-verif', ev], capture_output=True, text=True)
+            r = subprocess.run([os.environ.get('VLCHECK', V + '/bin/vlcheck'), '-property', p, '-repo', wt, '-verif', ev], capture_output=True, text=True)
             got = sorted(set(re.findall(r'\[' + p + r'\.(\w+)\]', r.stdout)))
             if r.returncode != 1 or not all(x in got for x in rules):
                 ok = False
